@@ -22,9 +22,12 @@ def run_property(prop: str, tier: str, root: str, seed: int, only_rule=None, qui
             run_mutants(chk, prop, root)
         return chk.finish(repo)
     except AnchorError as e:
-        print(f"ANALYSIS-ERROR property={prop}: {e}")
-        chk._write_evidence(repo, [], [], error=str(e))
-        return 2
+        try:
+            return chk.finish(repo, partial_error=str(e))
+        except AnchorError as e2:
+            print(f"ANALYSIS-ERROR property={prop}: {e2}")
+            chk._write_evidence(repo, [], [], error=str(e2))
+            return 2
     except Exception as e:  # never let a traceback look like a violation (exit 1)
         traceback.print_exc()
         print(f"ANALYSIS-ERROR property={prop}: internal error {type(e).__name__}: {e}")
